@@ -76,3 +76,60 @@ hilbert_instance!(hilbert_d5_b3, 5, 3, 8);
 hilbert_instance!(hilbert_d2_b8, 2, 8, 11);
 hilbert_instance!(hilbert_d3_b8, 3, 8, 11);
 hilbert_instance!(hilbert_d2_b16, 2, 16, 19);
+
+// =========================================================================================
+// parameter validation and quantisation (C17 / C19): bad parameters => the documented Err,
+// never a panic; quantised coordinates always inside the grid.
+// =========================================================================================
+macro_rules! quantize_instance {
+    ($name:ident, $d:expr, $bits:expr) => {
+        #[kani::proof]
+        #[kani::unwind(7)]
+        fn $name() {
+            const D: usize = $d;
+            let c: [f64; D] = kani::any();
+            let bounds: (f64, f64) = (kani::any(), kani::any());
+            let r = hilbert_quantize(&c, bounds, $bits);
+            assert!(r.is_ok(), "OBL quantize-valid-bits-ok: valid bits never produce an error");
+            match &r {
+                Ok(q) => {
+                    let mut i = 0;
+                    while i < D {
+                        assert!(u64::from(q[i]) < (1u64 << $bits), "OBL quantize-in-grid: every quantised coordinate lies in [0, 2^bits) for ANY f64 input (NaN, infinities, degenerate or inverted bounds included)");
+                        i += 1;
+                    }
+                }
+                Err(_) => {}
+            }
+            core::mem::forget(r);
+        }
+    };
+}
+quantize_instance!(hilbert_quantize_d1_b4, 1, 4);
+quantize_instance!(hilbert_quantize_d2_b31, 2, 31);
+
+#[kani::proof]
+#[kani::unwind(7)]
+fn hilbert_bad_parameters_contract() {
+    let c: [f64; 2] = kani::any();
+    let b: (f64, f64) = (kani::any(), kani::any());
+    let bits: u32 = kani::any();
+    kani::assume(bits == 0 || bits > 31);
+    let r1 = hilbert_quantize(&c, b, bits);
+    assert!(matches!(r1, Err(HilbertError::InvalidBitsParameter { .. })), "OBL quantize-bad-bits: bits == 0 or > 31 => InvalidBitsParameter");
+    let r2 = hilbert_index(&c, b, bits);
+    assert!(matches!(r2, Err(HilbertError::InvalidBitsParameter { .. })), "OBL index-bad-bits: bits == 0 or > 31 => InvalidBitsParameter");
+    let q: [[u32; 2]; 1] = [kani::any()];
+    let r3 = hilbert_indices_prequantized(&q, bits);
+    assert!(matches!(r3, Err(HilbertError::InvalidBitsParameter { .. })), "OBL bulk-bad-bits: bits == 0 or > 31 => InvalidBitsParameter");
+    // D * bits > 128 => IndexOverflow (D = 5, bits = 26..=31)
+    let c5: [f64; 5] = kani::any();
+    let bits5: u32 = kani::any();
+    kani::assume(bits5 >= 26 && bits5 <= 31);
+    let r4 = hilbert_index(&c5, b, bits5);
+    assert!(matches!(r4, Err(HilbertError::IndexOverflow { .. })), "OBL index-overflow: D * bits > 128 => IndexOverflow, never a wrapped index");
+    let q5: [[u32; 5]; 1] = [kani::any()];
+    let r5 = hilbert_indices_prequantized(&q5, bits5);
+    assert!(matches!(r5, Err(HilbertError::IndexOverflow { .. })), "OBL bulk-overflow: D * bits > 128 => IndexOverflow");
+    core::mem::forget((r1, r2, r3, r4, r5));
+}
